@@ -615,6 +615,10 @@ Definition garg_matches (a : pv) (g : garg) : bool :=
   | PStr s, GText t => bytes_eqb s t
   | PBytes s, GText t => bytes_eqb s t
   | PBytes s, GBytes t => bytes_eqb s t
+  | PBytes s, GInt z => match parse_dec (strip_nl s) with   (* Get.create keeps b"<id>\n" *)
+                        | Some y => Z.eqb y z && bytes_eqb (strip_nl s) (dec_bytes z)
+                        | None => false
+                        end
   | POther, GNone => true
   | _, _ => false
   end.
